@@ -2,6 +2,7 @@ import CkbVerif.Lemmas.Selector
 import CkbVerif.Lemmas.SelectorOrder
 import CkbVerif.Lemmas.Template
 import CkbVerif.Lemmas.Assembler
+import CkbVerif.Lemmas.AssemblerSvc
 
 /-!
 # C13 — every block template handed to miners would be accepted by the node itself
@@ -79,6 +80,22 @@ with content, the sealed block as the verifier model of C03 sees it; `Lemmas/Ass
   (that Proposed pool entries are inside the window is C12/C20), `EpochVerifier` (epoch/target EQUAL the
   verifier's: `next_epoch_ext` is shared code, C07), `DaoHeaderVerifier` (C06), `RewardVerifier` (C06),
   `BlockExtensionVerifier` (C19).
+
+Service level (round 6; `Model/AssemblerSvc.lean`, `Lemmas/AssemblerSvc.lean`): the candidate-uncle
+container as written (`insert` with the eviction of the lowest height, `remove_by_number`,
+`prepare_uncles`' removals) and the service's messages (`receive_candidate_uncle`, `Reset`, the reorg
+hook, the update paths with their staleness guard against the pool's tip):
+
+* `candidate_uncles_invariant`, `_count_exact`, `_insert_never_panics`, `_values_ascending`,
+  `_insert_spec`, `_remove_spec`, `_prepare_spec`      for EVERY history of the container;
+  `insert_refused_after_evicting`                      a quirk of `insert` as written (witness);
+* `svc_template_passes_block_verifier_partial`         the block-level theorem for ANY message sequence;
+  `stale_pool_tip_leaves_template`, `tip_changes_only_by_blank`, `svc_container_invariant`;
+* `template_passes_two_phase_commit_partial`, `svc_…`  `TwoPhaseCommitVerifier` (C03's `commitCheck`) accepts
+                                                       the sealed template, given the pool-stage invariant
+                                                       (`ProposedInWindow`: C12/C20) for the views the selector
+                                                       reads; `two_phase_commit_rejects_when_stage_wrong` shows
+                                                       the hypothesis is needed.
 -/
 
 namespace CkbVerif.C13
@@ -403,5 +420,387 @@ example :
     s'.t.uncles.map (·.id) = [104, 105] ∧ s'.t.proposals = [11, 13, 14] ∧ s'.t.txs.map (·.id) = [1, 2] ∧
     (sealBlock 228 s').bytes = 1286 ∧ nonContextualCheck cfg (sealBlock 228 s') = none ∧
     unclesCheck cfg cx (sealBlock 228 s') = none := by decide
+
+
+/-! ## The candidate-uncle container and the service's messages (`Model/AssemblerSvc.lean`)
+
+`CandidateUncles` (tx-pool/src/block_assembler/candidate_uncles.rs) with both limits as parameters
+(`mc` = `MAX_CANDIDATE_UNCLES`, `mp` = `MAX_PER_HEIGHT`, both > 0; the driver runs the model with the
+translated constants 128 / 10), for EVERY sequence of `insert` / `remove_by_number` / `prepare_uncles`. -/
+
+open CkbVerif.AssemblerSvc CkbVerif.Assembler CkbVerif.Rules
+open CkbVerif.Selector (View Entry)
+
+/-- one call on the container -/
+inductive CUOp where
+  | insert (u : Uncle)
+  | remove (u : Uncle)
+  | prepare (maxUncles : Nat) (snap : Snap) (epochNumber target : Nat)
+
+def cuStep (mc mp : Nat) (c : CU) : CUOp → CU
+  | .insert u => (c.insert mc mp u).1
+  | .remove u => (c.removeByNumber u).1
+  | .prepare mu snap en tg => (c.prepare mu snap en tg).2
+
+def cuRun (mc mp : Nat) (ops : List CUOp) : CU := ops.foldl (cuStep mc mp) {}
+
+theorem cuStep_inv {mc mp : Nat} (hmc : 0 < mc) (hmp : 0 < mp) {c : CU} (h : CU.Inv mc mp c) (op : CUOp) :
+    CU.Inv mc mp (cuStep mc mp c op) := by
+  cases op with
+  | insert u => exact CU.insert_inv hmc hmp h u
+  | remove u => exact CU.remove_inv h u
+  | prepare mu snap en tg => exact CU.fold_remove_inv _ h
+
+/-- after every history: `count` = number of stored uncles ≤ `MAX_CANDIDATE_UNCLES`, heights strictly
+    ascending, no empty height, at most `MAX_PER_HEIGHT` distinct uncles per height, each stored under
+    its own number -/
+theorem candidate_uncles_invariant (mc mp : Nat) (hmc : 0 < mc) (hmp : 0 < mp) (ops : List CUOp) :
+    CU.Inv mc mp (cuRun mc mp ops) := by
+  unfold cuRun
+  suffices ∀ c, CU.Inv mc mp c → CU.Inv mc mp (ops.foldl (cuStep mc mp) c) from this _ (CU.Inv.empty mc mp)
+  induction ops with
+  | nil => exact fun c h => h
+  | cons op ops ih => exact fun c h => ih _ (cuStep_inv hmc hmp h op)
+
+/-- `len()` is the number of uncles `values()` yields, and never exceeds the global limit -/
+theorem candidate_uncles_count_exact (mc mp : Nat) (hmc : 0 < mc) (hmp : 0 < mp) (ops : List CUOp) :
+    (cuRun mc mp ops).count = (cuRun mc mp ops).values.length ∧ (cuRun mc mp ops).count ≤ mc := by
+  have h := candidate_uncles_invariant mc mp hmc hmp ops
+  refine ⟨?_, h.le⟩
+  rw [h.count]
+  simp [CU.values, tot, List.length_flatMap]
+
+/-- `self.map.keys().next().expect("length checked")` in `insert` never panics -/
+theorem candidate_uncles_insert_never_panics (mc mp : Nat) (hmc : 0 < mc) (hmp : 0 < mp) (ops : List CUOp) :
+    ¬ (cuRun mc mp ops).insertPanics mc :=
+  CU.insert_never_panics hmc (candidate_uncles_invariant mc mp hmc hmp ops)
+
+/-- `values()` yields the candidates in ascending height order (what `prepare_uncles` relies on when it
+    accepts a candidate whose parent is an uncle selected earlier in the same pass) -/
+theorem candidate_uncles_values_ascending (mc mp : Nat) (hmc : 0 < mc) (hmp : 0 < mp) (ops : List CUOp) :
+    ((cuRun mc mp ops).values.map (·.number)).Pairwise (· ≤ ·) :=
+  values_sorted _ (candidate_uncles_invariant mc mp hmc hmp ops).map
+
+/-- `insert` adds nothing but the new uncle; when it answers `true` the uncle is stored; below the
+    global limit nothing is evicted; at the limit only the LOWEST height can be evicted (every
+    candidate of another height survives) and a candidate not above the lowest height is refused with
+    the container unchanged -/
+theorem candidate_uncles_insert_spec (mc mp : Nat) (hmp : 0 < mp) (c : CU) (h : CU.Inv mc mp c) (u : Uncle) :
+    (∀ x ∈ (c.insert mc mp u).1.values, x ∈ c.values ∨ x = u) ∧
+    ((c.insert mc mp u).2 = true → u ∈ (c.insert mc mp u).1.values) ∧
+    (c.count < mc → ∀ x ∈ c.values, x ∈ (c.insert mc mp u).1.values) ∧
+    (∀ first set rest, c.map = (first, set) :: rest →
+      (∀ x ∈ c.values, x.number ≠ first → x ∈ (c.insert mc mp u).1.values) ∧
+      (c.count ≥ mc → u.number ≤ first → c.insert mc mp u = (c, false))) := by
+  have put_mem : ∀ c' : CU, MapOk mp c'.map → ∀ x, x ∈ (CU.put mp c' u).1.values ↔
+      (x ∈ c'.values ∨ ((CU.put mp c' u).2 = true ∧ x = u)) := fun c' hm x =>
+    (insertAt_spec mp hmp u c'.map hm).2.2.2 x
+  refine ⟨?_, ?_, ?_, ?_⟩
+  · intro x hx
+    unfold CU.insert at hx
+    split at hx
+    · split at hx
+      · exact Or.inl hx
+      · rename_i first set rest hmap
+        split at hx
+        · have hm : MapOk mp ((first, set) :: rest) := hmap ▸ h.map
+          rcases (put_mem ⟨rest, _⟩ hm.tail x).mp hx with hx | hx
+          · left; simp only [CU.values, hmap, List.flatMap_cons, List.mem_append]; exact Or.inr hx
+          · exact Or.inr hx.2
+        · exact Or.inl hx
+    · rcases (put_mem c h.map x).mp hx with hx | hx
+      · exact Or.inl hx
+      · exact Or.inr hx.2
+  · intro ht
+    by_cases hfull : c.count ≥ mc
+    · cases hmap : c.map with
+      | nil => simp [CU.insert, hfull, hmap] at ht
+      | cons p rest =>
+        obtain ⟨first, set⟩ := p
+        have hm : MapOk mp ((first, set) :: rest) := hmap ▸ h.map
+        by_cases hgt : u.number > first
+        · have e : c.insert mc mp u = CU.put mp ⟨rest, c.count - set.length⟩ u := by
+            simp [CU.insert, hfull, hmap, hgt]
+          rw [e] at ht ⊢
+          exact (put_mem ⟨rest, _⟩ hm.tail u).mpr (Or.inr ⟨ht, rfl⟩)
+        · simp [CU.insert, hfull, hmap, hgt] at ht
+    · have e : c.insert mc mp u = CU.put mp c u := by simp [CU.insert, hfull]
+      rw [e] at ht ⊢
+      exact (put_mem c h.map u).mpr (Or.inr ⟨ht, rfl⟩)
+  · intro hlt x hx
+    have : ¬ c.count ≥ mc := by omega
+    simp only [CU.insert, this, if_false]
+    exact (put_mem c h.map x).mpr (Or.inl hx)
+  · intro first set rest hmap
+    have hm : MapOk mp ((first, set) :: rest) := hmap ▸ h.map
+    refine ⟨?_, ?_⟩
+    · intro x hx hne
+      unfold CU.insert
+      split
+      · simp only [hmap]
+        split
+        · apply (put_mem ⟨rest, _⟩ hm.tail x).mpr
+          left
+          simp only [CU.values, hmap, List.flatMap_cons, List.mem_append] at hx
+          rcases hx with hx | hx
+          · exact absurd (hm.number (first, set) (List.mem_cons_self ..) x hx) hne
+          · exact hx
+        · exact hx
+      · exact (put_mem c h.map x).mpr (Or.inl hx)
+    · intro hfull hle
+      have : ¬ u.number > first := by omega
+      simp [CU.insert, hfull, hmap, this]
+
+/-- `remove_by_number` removes exactly the uncle of that number and hash, answers whether it was there,
+    and keeps `count` exact -/
+theorem candidate_uncles_remove_spec (mc mp : Nat) (c : CU) (h : CU.Inv mc mp c) (u : Uncle) :
+    (∀ x, x ∈ (c.removeByNumber u).1.values ↔ (x ∈ c.values ∧ ¬ (x.number = u.number ∧ x.id = u.id))) ∧
+    (c.removeByNumber u).1.count + (if (c.removeByNumber u).2 then 1 else 0) = c.count := by
+  obtain ⟨_, i2, _, i4⟩ := removeAt_spec mp u c.map h.map
+  refine ⟨i4, ?_⟩
+  have := h.count
+  have h' := (CU.remove_inv h u).count
+  simp only [CU.removeByNumber] at h' ⊢
+  split <;> rename_i hb <;> simp [hb] at i2 h' ⊢ <;> omega
+
+/-- `prepare_uncles` on the container: it only removes candidates, never one of the epoch and target
+    it prepares for ("we should keep candidate until next epoch"), keeps the container well formed,
+    and what it returns is `prepareUncles` over `values()` (so `prepared_uncles_rules` applies) -/
+theorem candidate_uncles_prepare_spec (mc mp : Nat) (c : CU) (h : CU.Inv mc mp c) (mu : Nat) (snap : Snap) (en tg : Nat) :
+    (c.prepare mu snap en tg).1 = prepareUncles mu snap en tg c.values ∧
+    CU.Inv mc mp (c.prepare mu snap en tg).2 ∧
+    (∀ x ∈ (c.prepare mu snap en tg).2.values, x ∈ c.values) ∧
+    (∀ x ∈ c.values, x.target = tg → x.epochNumber = en → x ∈ (c.prepare mu snap en tg).2.values) :=
+  ⟨rfl, CU.fold_remove_inv _ h, (CU.prepare_values h mu snap en tg).1, (CU.prepare_values h mu snap en tg).2⟩
+
+/-- a stored candidate of a lower height is yielded by `values()` BEFORE every candidate of a greater
+    height: a candidate's parent (one height below, `CandsOk.numCand`) that is itself a candidate has
+    already been decided when `prepare_uncles` tests `uncles.iter().any(|u| u.hash() == parent_hash)` -/
+theorem candidate_lower_height_comes_first (mc mp : Nat) (c : CU) (h : CU.Inv mc mp c) (i j : Nat)
+    (hi : i < c.values.length) (hj : j < c.values.length)
+    (hlt : c.values[i].number < c.values[j].number) : i < j := by
+  have hs := values_sorted c.map h.map
+  rw [List.pairwise_iff_getElem] at hs
+  rcases Nat.lt_trichotomy i j with h1 | h1 | h1
+  · exact h1
+  · subst h1; omega
+  · have := hs j i (by simpa [CU.values] using hj) (by simpa [CU.values] using hi) h1
+    simp only [List.getElem_map] at this
+    simp only [CU.values] at hlt
+    omega
+
+/-- a refused insertion CAN still evict: with the container full, a duplicate (or a candidate for a
+    full height) above the lowest height first drops the lowest height and is then refused
+    (`mc = 2`, `mp = 1`). Harmless for templates (candidates are only ever optional), recorded because
+    `insert`'s documentation reads as if `false` meant "unchanged". -/
+theorem insert_refused_after_evicting :
+    let a : Uncle := { id := 1, parent := 0, number := 5, epochNumber := 0, target := 0 }
+    let b : Uncle := { id := 2, parent := 0, number := 6, epochNumber := 0, target := 0 }
+    let c := cuRun 2 1 [.insert a, .insert b]
+    c.count = 2 ∧ (c.insert 2 1 b).2 = false ∧ (c.insert 2 1 b).1.count = 1 ∧
+      (c.insert 2 1 b).1.values.map (·.id) = [2] := by decide
+
+/-- non-vacuity of the container theorems: a history that fills the container, overflows a height,
+    evicts the lowest height and removes by number -/
+example :
+    let mk (id n : Nat) : Uncle := { id := id, parent := 0, number := n, epochNumber := 0, target := 0 }
+    let c := cuRun 4 2 [.insert (mk 1 5), .insert (mk 2 5), .insert (mk 3 5), .insert (mk 4 7), .insert (mk 5 6),
+      .insert (mk 6 4), .insert (mk 7 8), .remove (mk 4 7), .remove (mk 9 9)]
+    c.values.map (·.id) = [5, 7] ∧ c.count = 2 := by decide
+
+/-! ### the service's messages -/
+
+/-- PARTIAL (same stages as `template_passes_block_verifier_partial`). The template after ANY sequence of
+    service messages — candidate uncles received (with the container's evictions), resets, reorgs that
+    turn detached blocks into candidates, and the four update paths WITH their staleness guard (the
+    pool may be on another tip: then the path returns without touching the template), `update_uncles`
+    reading and pruning the shared container — that starts with a message installing a blank template
+    passes the modelled non-contextual `BlockVerifier` and `UnclesVerifier` and is within
+    `max_block_cycles`, provided every message meets its hypotheses (`GOp.Ok`) in the state it finds. -/
+theorem svc_template_passes_block_verifier_partial (cfg : Cfg) (U mc mp : Nat) (cxOf : Tip → Cx) (g : GSt)
+    (op0 : GOp) (ops : List GOp) (hb : op0.isBlank = true)
+    (h0 : op0.Ok cfg U mc mp cxOf g)
+    (hops : GOkRun cfg U mc mp cxOf (gstep cfg U mc mp g op0) ops) :
+    let g' := grun cfg U mc mp (gstep cfg U mc mp g op0) ops
+    nonContextualCheck cfg (sealBlock U g'.a) = none ∧
+    unclesCheck cfg (cxOf g'.a.tip) (sealBlock U g'.a) = none ∧
+    (sealBlock U g'.a).cycles ≤ cfg.maxCycles :=
+  (grun_inv cfg U mc mp cxOf ops _ (gstep_blank_inv cfg U mc mp cxOf g op0 hb h0) hops).sealed
+
+/-! ### the commit phase: `TwoPhaseCommitVerifier` on the sealed template -/
+
+/-- PARTIAL (the pool-stage invariant is a hypothesis: C12 / C20 prove and tie it). After `update_blank`
+    on any tip and ANY sequence of the five update paths, if every pool view the selector reads has
+    consistent links and its `Proposed` entries are exactly inside the verifier's proposal window
+    `[tip+1-w_far, tip+1-w_close]` of the template's tip (`ProposedInWindow`), the modelled
+    `TwoPhaseCommitVerifier` accepts the sealed template: the selector packages only `Proposed`
+    entries (`selected_ancestor_closed`), `calc_dao` only drops, and the two paths that do not select
+    (`update_uncles`, `update_proposals`) keep transactions and tip. -/
+theorem template_passes_two_phase_commit_partial (cfg : Cfg) (U : Nat) (cxOf : Tip → Cx) (s : ASt)
+    (tip : Tip) (cands : List Uncle) (ops : List AOp)
+    (hops : CommitOkRun cfg U cxOf (astep cfg U s (.blank tip cands)) ops) :
+    let s' := arun cfg U (astep cfg U s (.blank tip cands)) ops
+    s'.tip.snap.tipNumber + 1 - cfg.win.close < (cxOf s'.tip).chain.length →
+    commitCheck cfg (cxOf s'.tip) (sealBlock U s') = none := by
+  intro s' hlen
+  have h0 : CInv cfg cxOf (astep cfg U s (.blank tip cands)) := by
+    intro e he; simp [astep] at he
+  exact (h0.run ops hops).sealed hlen
+
+/-- the same for ANY sequence of service messages (guards, container, reorgs) after a message that
+    installs a blank template -/
+theorem svc_template_passes_two_phase_commit_partial (cfg : Cfg) (U mc mp : Nat) (cxOf : Tip → Cx) (g : GSt)
+    (op0 : GOp) (ops : List GOp) (hb : op0.isBlank = true)
+    (hops : GCommitOkRun cfg U mc mp cxOf (gstep cfg U mc mp g op0) ops) :
+    let g' := grun cfg U mc mp (gstep cfg U mc mp g op0) ops
+    g'.a.tip.snap.tipNumber + 1 - cfg.win.close < (cxOf g'.a.tip).chain.length →
+    commitCheck cfg (cxOf g'.a.tip) (sealBlock U g'.a) = none := by
+  intro g' hlen
+  have h0 : CInv cfg cxOf (gstep cfg U mc mp g op0).a := by
+    cases op0 with
+    | reorgBlank detached tip tipId => intro e he; simp [gstep, blankWith, astep] at he
+    | reset tip tipId => intro e he; simp [gstep, blankWith, astep] at he
+    | _ => simp [GOp.isBlank] at hb
+  exact (grun_cinv cfg U mc mp cxOf ops _ h0 hops).sealed hlen
+
+/-- the hypothesis cannot be dropped: a pool whose `Proposed` entry 2 is NOT in the verifier's window
+    (a stage the pool must never be in) yields a template the commit check rejects -/
+theorem two_phase_commit_rejects_when_stage_wrong :
+    let cx' : Cx := { AsmEx.cx with chain := [[], [], [], [], [1, 3], []] }
+    let cfg' : Cfg := { AsmEx.cfg with win := ⟨1, 2⟩ }
+    let s' := arun cfg' 228 (astep cfg' 228 AsmEx.start (.blank AsmEx.tip [])) [.full [] okPool (fun _ => true)]
+    (s'.t.txs.map (·.id)).contains 2 = true ∧ commitCheck cfg' cx' (sealBlock 228 s') = some .commitInvalid := by
+  decide
+
+open AsmEx in
+/-- non-vacuity of `template_passes_two_phase_commit_partial`: window (1, 2), tip 5, the ids proposed
+    in blocks 4 and 5 are the pool's proposed entries; hypotheses hold, template commits 1 and 2 -/
+example :
+    let cx' : Cx := { cx with chain := [[], [], [], [], [1, 3], [2, 4]] }
+    let cfg' : Cfg := { cfg with win := ⟨1, 2⟩ }
+    let ops : List AOp := [.full [11] okPool (fun _ => true), .uncles cands, .txs okPool (fun e => e.id != 3)]
+    CommitOkRun cfg' 228 (fun _ => cx') (astep cfg' 228 start (.blank tip cands)) ops ∧
+    (arun cfg' 228 (astep cfg' 228 start (.blank tip cands)) ops).t.txs.map (·.id) = [1, 2] ∧
+    commitCheck cfg' cx' (sealBlock 228 (arun cfg' 228 (astep cfg' 228 start (.blank tip cands)) ops)) = none := by
+  have hw : ∀ id, okPool.hasProposed id = true →
+      (Window.verifierIds ⟨1, 2⟩ [[], [], [], [], [1, 3], [2, 4]] 6).contains id = true := by
+    intro id h
+    have : id ∈ okPool.ids := Selector.hasProposed_mem_ids h
+    have hids : okPool.ids = [1, 2, 3, 4] := by decide
+    rw [hids] at this
+    simp only [List.mem_cons, List.not_mem_nil, or_false] at this
+    rcases this with rfl | rfl | rfl | rfl <;> decide
+  have hL : LinksOk okPool := by decide
+  exact ⟨⟨⟨hL, hw⟩, trivial, ⟨hL, hw⟩, trivial⟩, by decide, by decide⟩
+
+/-! ### the cellbase: `build_cellbase` against `RewardVerifier` / `CellbaseVerifier` -/
+
+/-- `build_cellbase` never makes more than one output (the per-tip hypothesis `TipOk.cbOutputs` of the
+    block-level theorems is a fact of the code) -/
+theorem built_cellbase_outputs_le_one (finDelay tipNumber rewardTotal occupied : Nat) :
+    cellbaseOutputs finDelay tipNumber rewardTotal occupied ≤ 1 := by
+  unfold cellbaseOutputs; split <;> omega
+
+/-- the cellbase `build_cellbase` makes for the tip passes the modelled `RewardVerifier`: no output
+    exactly when the verifier expects none (`parent + 1 <= finalization_delay_length`, or the reward
+    cannot fill the target's cell), else one output carrying the finalised reward to the target lock —
+    given that assembler and verifier ask the same `RewardCalculator` on the same chain (total, lock) and
+    the template's tip is the verifier's parent. Same boundary (`<=`) on both sides. -/
+theorem built_cellbase_passes_reward_verifier (cfg : Cfg) (cx : Cx) (U : Nat) (s : ASt) (rewardTotal occupied : Nat)
+    (hp : cx.parentNumber = s.tip.snap.tipNumber) :
+    rewardCheck cfg cx
+      { sealBlock U s with
+        cbOutputs := cellbaseOutputs cfg.finDelay s.tip.snap.tipNumber rewardTotal occupied
+        rewardInsufficient := decide (occupied > rewardTotal)
+        cbCapacity := rewardTotal, expReward := rewardTotal, cbLockEq := true } = none := by
+  simp only [rewardCheck, cellbaseOutputs, hp]
+  split <;> simp
+
+/-- the boundary matters: a cellbase with an output one block too early (`<` for `<=` in
+    `no_finalization_target`) is rejected (`finalization_delay_length` = 4, tip 3) -/
+theorem cellbase_output_at_finalization_delay_rejected :
+    let cfg' : Cfg := { AsmEx.cfg with win := ⟨1, 3⟩ }
+    cfg'.finDelay = 4 ∧ cellbaseOutputs cfg'.finDelay 3 1000 100 = 0 ∧
+    rewardCheck cfg' { AsmEx.cx with parentNumber := 3 }
+      { cbOutputs := 1, cbCapacity := 1000, expReward := 1000, cbLockEq := true } = some .rewardTarget := by
+  decide
+
+/-- the staleness guard: while the pool's snapshot is on another tip than the assembler's, the three
+    pool-reading paths leave assembler, container and tip exactly as they are -/
+theorem stale_pool_tip_leaves_template (cfg : Cfg) (U mc mp : Nat) (g : GSt) (poolTip : Nat) (hne : g.tipId ≠ poolTip)
+    (pending : List Nat) (v : View) (keep : Entry → Bool) :
+    gstep cfg U mc mp g (.full poolTip pending v keep) = g ∧
+    gstep cfg U mc mp g (.proposals poolTip pending) = g ∧
+    gstep cfg U mc mp g (.txs poolTip v keep) = g := by
+  have : (g.tipId != poolTip) = true := by simpa using hne
+  simp [gstep, this]
+
+/-- the tip a template is built on changes only through `update_blank` (reset / reorg): every other
+    message keeps `tipId` and the per-tip data (epoch, target, cellbase, extension size) -/
+theorem tip_changes_only_by_blank (cfg : Cfg) (U mc mp : Nat) (g : GSt) (op : GOp) (hb : op.isBlank = false) :
+    (gstep cfg U mc mp g op).tipId = g.tipId ∧ (gstep cfg U mc mp g op).a.tip = g.a.tip := by
+  cases op with
+  | recvUncle u => exact ⟨rfl, rfl⟩
+  | reorgBlank detached tip tipId => simp [GOp.isBlank] at hb
+  | reset tip tipId => simp [GOp.isBlank] at hb
+  | full poolTip pending v keep =>
+    simp only [gstep]; split
+    · exact ⟨rfl, rfl⟩
+    · refine ⟨rfl, ?_⟩; simp only [astep]; split <;> rfl
+  | uncles =>
+    simp only [gstep]; split
+    · split
+      · refine ⟨rfl, ?_⟩; simp only [astep]; split <;> (try split) <;> (try split) <;> rfl
+      · exact ⟨rfl, rfl⟩
+    · exact ⟨rfl, rfl⟩
+  | proposals poolTip pending =>
+    simp only [gstep]; split
+    · exact ⟨rfl, rfl⟩
+    · refine ⟨rfl, ?_⟩; simp only [astep]; split <;> rfl
+  | txs poolTip v keep =>
+    simp only [gstep]; split
+    · exact ⟨rfl, rfl⟩
+    · refine ⟨rfl, ?_⟩; simp only [astep]; split <;> rfl
+
+/-- the shared container stays well formed under every message of the service -/
+theorem svc_container_invariant (cfg : Cfg) (U mc mp : Nat) (hmc : 0 < mc) (hmp : 0 < mp) (g : GSt) (ops : List GOp)
+    (h : CU.Inv mc mp g.cu) : CU.Inv mc mp (grun cfg U mc mp g ops).cu := by
+  unfold grun
+  induction ops generalizing g with
+  | nil => exact h
+  | cons op ops ih => exact ih _ (gstep_cu_inv cfg U mc mp hmc hmp g op h)
+
+/-- the translated limits satisfy the side conditions of the container theorems -/
+theorem candidate_uncle_limits_positive :
+    0 < Gen.Template.MAX_CANDIDATE_UNCLES ∧ 0 < Gen.Template.MAX_PER_HEIGHT := by decide
+
+open AsmEx CkbVerif.Assembler CkbVerif.Rules in
+/-- the hypotheses of `svc_template_passes_block_verifier_partial` are satisfiable: a container filled
+    through `insert` with the three candidates of `AsmEx` (one of the previous epoch), a reset, a full
+    update, a received uncle, an incremental transaction update -/
+example :
+    let g0 : GSt := { a := start, tipId := 0, cu := cuRun 128 10 (cands.map .insert) }
+    (GOp.reset tip 7).isBlank = true ∧ (GOp.reset tip 7).Ok cfg 228 128 10 (fun _ => cx) g0 ∧
+    GOkRun cfg 228 128 10 (fun _ => cx) (gstep cfg 228 128 10 g0 (.reset tip 7))
+      [.full 7 [11, 12, 13] okPool (fun _ => true), .recvUncle cands[1], .txs 7 okPool (fun e => e.id != 3)] := by
+  have hv : (cuRun 128 10 (cands.map .insert)).values = cands := by rfl
+  have hpool : LinksOk okPool ∧ AggGe okPool ∧ (1000 : Nat) ∉ okPool.ids := by decide
+  refine ⟨rfl, ⟨tipOk, ?_⟩, ⟨by decide, hpool.1, hpool.2.1, hpool.2.2⟩, trivial, ⟨hpool.1, hpool.2.1, hpool.2.2⟩, trivial⟩
+  show CandsOk cfg cx (cuRun 128 10 (cands.map .insert)).values
+  rw [hv]; exact candsOk
+
+open AsmEx CkbVerif.Assembler CkbVerif.Rules in
+/-- non-vacuity of `svc_template_passes_block_verifier_partial`: a reorg whose detached block becomes a
+    candidate, a full update, a received uncle, `update_uncles`, a guarded path while the pool is on
+    another tip (no effect), then the same path on the right tip -/
+example :
+    let g0 : GSt := { a := start, tipId := 0, cu := {} }
+    let ops : List GOp :=
+      [ .full 7 [11, 12, 13] okPool (fun _ => true), .recvUncle cands[1], .uncles,
+        .proposals 8 [11, 12, 13, 14, 15], .proposals 7 [11, 12, 13, 14, 15] ]
+    let g' := grun cfg 228 128 10 (gstep cfg 228 128 10 g0 (.reorgBlank [cands[0]] tip 7)) ops
+    g'.a.t.uncles.map (·.id) = [104, 105] ∧ g'.a.t.proposals = [11, 13, 14] ∧ g'.a.t.txs.map (·.id) = [1, 2] ∧
+    g'.cu.count = 2 ∧ nonContextualCheck cfg (sealBlock 228 g'.a) = none ∧
+    unclesCheck cfg cx (sealBlock 228 g'.a) = none := by decide
 
 end CkbVerif.C13
